@@ -702,6 +702,20 @@ def m_rsa1016_anchor(g, c):
     pass
 
 
+def _mk_above_limits(g):
+    L = g.rng.choice([1, 2, 2, 3])
+    kinds = [None] * (L + 1)
+    kinds[g.rng.randrange(0, L + 1)] = g.rng.choice(['rsa4104', 'rsa4160', 'rsa4096'])
+    return g.base(L=L, kinds=kinds)
+
+
+# RSA keys at and beyond the documented limits, as leaf key, CA key or anchor key: 4096 bits (512-byte signatures: the
+# limit, must work), 4104 bits (the key still fits, its signatures do not), 4160 bits (the key does not fit)
+@cls('rsa-at-and-above-limits', lambda b: any(b['_keys'][i].startswith(('rsa4104', 'rsa4160', 'rsa4096')) for i in range(b['_L'] + 1)), 2, _mk_above_limits)
+def m_rsa_limits(g, c):
+    pass
+
+
 def _mk_below128(g):
     if g.rng.random() < 0.5:
         return _base_with('rsa1016')(g)
